@@ -260,6 +260,28 @@ func c07Units(tier string) []*Unit {
 			return out
 		}})
 	}
+	// a task whose dir cannot be created (a dangling symbolic link), needed twice: both calls end
+	// (with an error), nobody waits for anybody
+	for _, n := range []int{0, 1} {
+		files := map[string]string{
+			"bad": "SYMLINK:/nonexistent-verif-dir/sub",
+			"Taskfile.yml": "version: '3'\ntasks:\n  root:\n    deps:\n      - task: t\n        vars: {A: '1'}\n      - task: t\n        vars: {A: '2'}\n  seq:\n    ignore_error: true\n    cmds:\n      - task: t\n        vars: {A: '1'}\n      - task: t\n        vars: {A: '2'}\n" +
+				"  t:\n    dir: bad\n    cmds:\n      - printf '%s\\n' 'P|t|0|{{.A}}|'\n",
+		}
+		for _, call := range []string{"root", "seq"} {
+			sc := &vlab.Scenario{Name: "dir-that-cannot-be-created-needed-twice/" + call + "/N" + concName(n), Files: files, UsesFS: true, Opts: vlab.Options{Concurrency: n}, Calls: []vlab.CallSpec{{Task: call}}}
+			us = append(us, &Unit{Name: sc.Name, Sc: sc, Bound: 1, Prune: false, Weight: 1, Check: func(x *vlab.Exec) []vlab.Violation {
+				out := generic("C07", x)
+				if x.Res.Deadlock {
+					out = append(out, vlab.V("C07", "deadlock", "uncreatable_dir", fmt.Sprintf("no thread enabled while some are unfinished: %v", x.Res.Blocked)))
+				}
+				if x.Res.Horizon {
+					out = append(out, vlab.V("C07", "no_termination_within_horizon", "uncreatable_dir", "execution exceeded the step horizon"))
+				}
+				return out
+			}})
+		}
+	}
 	var cn []string
 	for k := range cyc {
 		cn = append(cn, k)
